@@ -41,10 +41,17 @@ class C20(core.Check):
         maxn = 8 if (self.thorough or boost) else 6
         for n in range(1, maxn + 1):
             for mask in range(1, 2 ** n):
-                cases.append((n, [i for i in range(n) if mask >> i & 1]))
+                present = [i for i in range(n) if mask >> i & 1]
+                cases.append((n, present))
+                # the exchange's response may run past the requested interval: minutes n, n+1, … are provided too
+                # (in particular as many as are missing inside, so that the batch has exactly the interval's length)
+                for extra in sorted({1, 2, n - len(present)} - {0}):
+                    cases.append((n, present + [n + j for j in range(extra)]))
         for _ in range(self.budget(60, 1500, boost)):
             n = r.randint(9, 60)
             present = sorted(r.sample(range(n), r.randint(1, n)))
+            if r.random() < 0.4:
+                present = present + [n + j for j in range(r.choice([1, 2, n - len(present)]) or 1)]
             cases.append((n, present))
         return cases
 
@@ -204,6 +211,8 @@ class C20(core.Check):
                 res.fail(**{'class': 'fill_absent/raises', 'input': inp, 'observed': repr(e)})
                 continue
             res.seen(('fa', n, tuple(present)), len(present) < n)
+            if any(i >= n for i in present):
+                res.count('fill_absent:response-runs-past-the-interval')
             res.count('fill_absent')
             probs = []
             if len(out) != n:
